@@ -143,11 +143,29 @@ def gen_spec(rng, big=False):
         r = rng.choice(dv)
         delays = dict(result=r, complete=r + rng.choice([0.0, 0.0, 0.125, 0.05, rng.uniform(0, 1)]),
                       stopc=rng.choice(dv), start=rng.choice(dv), stop=rng.choice(dv + [5.0, 20.0]))
+    grid = rng.choice(["1..n", "1..n", "2k", "3k", "arbitrary"])
+    if grid == "1..n":
+        fids = list(range(1, nfid + 1))
+    elif grid == "2k":
+        fids = [2 * k for k in range(1, nfid + 1)]
+    elif grid == "3k":
+        fids = [3 * k for k in range(1, nfid + 1)]
+    else:
+        fids, f = [], 0
+        for _ in range(nfid):
+            f += rng.randint(1, 4)
+            fids.append(f)
     return dict(nx=nx, ny=ny, nseeds=nseeds, nfid=nfid, nmet=nmet, style=style, table=table, delays=delays, nan_cols=nan_cols,
+                fids=fids, fid_grid=grid, key_order=rng.choice(["xy", "yx", "exy", "yex"]),
                 sleep=rng.choice([0.1, 0.25, 0.5, 1.0, 0.0, 2.0]),
                 checkpointing=rng.random() < 0.7,
                 fixed_seed=rng.choice([None, None, rng.randrange(nseeds)]),
                 use_maxres=rng.random() < 0.5)
+
+
+def fids_of(spec):
+    """fidelity values of the table (older cases: the default grid 1..n)"""
+    return spec.get("fids") or list(range(1, spec["nfid"] + 1))
 
 
 def make_blackbox(spec):
@@ -156,7 +174,8 @@ def make_blackbox(spec):
     nx, ny = spec["nx"], spec["ny"]
     hp = pd.DataFrame({"x": [c // ny for c in range(nx * ny)], "y": [c % ny for c in range(nx * ny)]})
     cs = {"x": m["randint"](0, nx - 1), "y": m["randint"](0, ny - 1)}
-    fs = {"epoch": m["randint"](1, spec["nfid"])}
+    fids = fids_of(spec)
+    fs = {"epoch": m["randint"](1, max(fids))}
     nmet = spec["nmet"]
     ev = np.zeros((nx * ny, spec["nseeds"], spec["nfid"], nmet + 1))
     for c, per_seed in enumerate(spec["table"]):
@@ -174,18 +193,26 @@ def make_blackbox(spec):
             return super()._objective_function(configuration, fidelity=fidelity, seed=seed)
 
     bb = RecordingBlackbox(hyperparameters=hp, configuration_space=cs, fidelity_space=fs,
-                           objectives_evaluations=ev,
+                           objectives_evaluations=ev, fidelity_values=np.array(fids),
                            objectives_names=["m%d" % k for k in range(nmet)] + ["elapsed"])
     bb.seed_calls = []
     return bb
 
 
 def cfg_dict(spec, idx, maxres):
-    """idx >= number of configurations: a configuration that is not in the table"""
+    """idx >= number of configurations: a configuration that is not in the table. The ORDER of the keys of
+    the dict is spec["key_order"] (x, y, e = epochs): it need not be the column order of the table"""
     n = spec["nx"] * spec["ny"]
-    d = {"x": idx // spec["ny"], "y": idx % spec["ny"]} if idx < n else {"x": 1000 + idx, "y": 0}
+    vals = {"x": idx // spec["ny"], "y": idx % spec["ny"]} if idx < n else {"x": 1000 + idx, "y": 0}
     if maxres is not None:
-        d["epochs"] = maxres
+        vals["epochs"] = maxres
+    d = {}
+    for ch in spec.get("key_order", "xy"):
+        k = {"x": "x", "y": "y", "e": "epochs"}[ch]
+        if k in vals:
+            d[k] = vals[k]
+    for k, v in vals.items():
+        d.setdefault(k, v)
     return d
 
 
@@ -303,9 +330,10 @@ def do_sleep(be, log):
 # --------------------------------------------------------------------------
 def coq_settings(spec):
     d = spec["delays"]
-    return ("(mkSet %s %s %s %s %s %s %s %s %s %s)" % (
+    return ("(mkSet %s %s %s %s %s %s %s %s %s %s %s)" % (
         q(d["result"]), q(d["complete"]), q(d["stopc"]), q(d["start"]), q(d["stop"]), q(spec["sleep"]),
-        blit(spec["checkpointing"]), optlit(spec["fixed_seed"], natlit), q(EPS), q(NUDGE)))
+        blit(spec["checkpointing"]), optlit(spec["fixed_seed"], natlit), q(EPS), q(NUDGE),
+        lst([natlit(f) for f in fids_of(spec)])))
 
 
 def coq_table(spec):
@@ -449,14 +477,19 @@ def close(a, b, rel=1e-9):
 
 def expected_run(spec, idx, seed, maxres, rp):
     """Recomputed from the table: [(level, elapsed since resume point after the documented repair,
-    metrics)] of a job of configuration idx, seed, limited to maxres, resumed after level rp."""
+    metrics)] of a job of configuration idx, seed, limited to maxres, resumed after level rp. Levels are
+    the fidelity VALUES of the table."""
     rows = spec["table"][idx][seed]
-    m = len(rows) if maxres is None else min(len(rows), maxres)
+    fids = fids_of(spec)
+    lv = [(f, rows[j]) for j, f in enumerate(fids) if j < len(rows) and (maxres is None or f <= maxres)]
     if rp is not None and spec["checkpointing"]:
-        off = rows[rp - 1][0] if 1 <= rp <= m else 0
-        items = [[l, rows[l - 1][0] - off, rows[l - 1][1]] for l in range(1, m + 1) if l > rp]
+        off = 0
+        for f, row in lv:
+            if f == rp:
+                off = row[0]
+        items = [[f, row[0] - off, row[1]] for f, row in lv if f > rp]
     else:
-        items = [[l, rows[l - 1][0], rows[l - 1][1]] for l in range(1, m + 1)]
+        items = [[f, row[0], row[1]] for f, row in lv]
     prev = None
     for it in items:
         it[1] = max(it[1], EPS if prev is None else prev + EPS)
@@ -532,14 +565,14 @@ def check_log(spec, log):
                 if t not in op["ids"]:
                     viol.append(("result of a trial that was not asked for: " + where, dict(defect="unlisted_trial")))
                 idx, maxres = runs[t][-1]["cfg"]
-                if idx >= ncfg or lvl < 1 or lvl > spec["nfid"] or (maxres is not None and lvl > maxres):
+                if idx >= ncfg or lvl not in fids_of(spec) or (maxres is not None and lvl > maxres):
                     viol.append(("level outside the table / above max_resource: " + where, dict(defect="level_range")))
                     continue
                 # the seed: the one whose table row carries these metric values (rows are distinct by construction)
                 if spec["fixed_seed"] is not None:
                     cand = [spec["fixed_seed"]]
                 else:
-                    cand = [s for s in range(spec["nseeds"]) if same_vals(spec["table"][idx][s][lvl - 1][1], mets)]
+                    cand = [s for s in range(spec["nseeds"]) if same_vals(spec["table"][idx][s][fids_of(spec).index(lvl)][1], mets)]
                 if t not in seed_of:
                     if len(cand) == 1:
                         seed_of[t] = cand[0]
@@ -558,8 +591,8 @@ def check_log(spec, log):
                         return ridx < ncfg and any(l2 == lvl and close(e2, el) and close(runs[t][-1]["te"] + e2 + d["result"], ts)
                                                    for (l2, e2, m2) in expected_run(spec, ridx, s_, rmax, runs[t][-1]["rp"]))
                     s = ([s_ for s_ in cand if fits_s(s_)] + cand)[0]
-                if not same_vals(spec["table"][idx][s][lvl - 1][1], mets):
-                    other = [s2 for s2 in range(spec["nseeds"]) if same_vals(spec["table"][idx][s2][lvl - 1][1], mets)]
+                if not same_vals(spec["table"][idx][s][fids_of(spec).index(lvl)][1], mets):
+                    other = [s2 for s2 in range(spec["nseeds"]) if same_vals(spec["table"][idx][s2][fids_of(spec).index(lvl)][1], mets)]
                     viol.append(("metric values differ from the table row (config %d, seed %d, level %d): %s got %r%s"
                                  % (idx, s, lvl, where, mets, " = row of seed %d" % other[0] if other else ""),
                                  dict(defect="seed_changed" if other else "values_not_in_table")))
@@ -588,12 +621,13 @@ def check_log(spec, log):
                                      "(run started at %r, resume level %r)" % (where, el, ts, exp, run["te"], run["rp"]),
                                      dict(defect="time_stamp" if exp else "level_not_in_run")))
                     continue
-                first = (run["rp"] + 1) if run["rp"] is not None else 1
-                want = first if run["next"] is None else run["next"]
-                if lvl != want and not (run["gaps"] and lvl > want):
-                    viol.append(("levels of a run are not consecutive: %s expected level %d" % (where, want),
+                fl = [f for f in fids_of(spec) if run["rp"] is None or f > run["rp"]]
+                want = (fl[0] if fl else None) if run["next"] is None else run["next"]
+                if lvl != want and not (run["gaps"] and want is not None and lvl > want):
+                    viol.append(("levels of a run skip or repeat a fidelity value: %s expected level %r" % (where, want),
                                  dict(defect="levels_not_consecutive")))
-                run["next"] = lvl + 1
+                later = [f for f in fids_of(spec) if f > lvl]
+                run["next"] = later[0] if later else None
                 run["n"] += 1
             # ---- in time: every report of a polled, running trial that is due by now and was not due at the
             # previous fetch must be in this fetch's output
@@ -653,12 +687,15 @@ def near_tie(spec, log, rel=1e-9):
 
     def run_events(te, idx, seed, mr, p):
         rows = spec["table"][idx][seed]
-        m = len(rows) if mr is None else min(len(rows), mr)
+        lv = [(f, rows[j]) for j, f in enumerate(fids_of(spec)) if j < len(rows) and (mr is None or f <= mr)]
         if p is not None and spec["checkpointing"]:
-            off = Dual(rows[p - 1][0]) if 1 <= p <= m else Dual(0.0)
-            xs = [Dual(rows[l - 1][0]) - off for l in range(1, m + 1) if l > p]
+            off = Dual(0.0)
+            for f, row in lv:
+                if f == p:
+                    off = Dual(row[0])
+            xs = [Dual(row[0]) - off for f, row in lv if f > p]
         else:
-            xs = [Dual(rows[l - 1][0]) for l in range(1, m + 1)]
+            xs = [Dual(row[0]) for f, row in lv]
         prev, last, out = None, te, []
         for x in xs:
             e = Dual.max(x, eps if prev is None else prev + eps)
